@@ -26,7 +26,9 @@
         before custom, then by printed name.  After the fix (sort.SliceStable) the sort is THE
         stable sort (`isort`); before the fix (sort.Slice) it was any sorted permutation
         (`SortedPermOf`).  `fmtModel` = (ii') ; (iii) on a whole decorated stream;
-  (iv)  the executable checker `validFormat inp out` — a relation between the two texts;
+  (iv)  the executable checker `validFormat inp out` — a relation between the two texts
+        (`validFormatFile`: the same on file contents, i.e. behind newLexer's discarding of a
+        leading UTF-8 byte order mark);
   (v)   the normal form `isFormatted` (token level: nothing left to rewrite, header canonical;
         layout level: white space between tokens is one space or newline(s) + indentation).
 -/
@@ -717,6 +719,21 @@ def validD (di dout : List DTok) : Bool :=
     `out` (tokens with the comments attributed to them) is the one of `inp` after the body-level
     rewrites, with the file-level statements rearranged as `headerOK` allows. -/
 def validFormat (inp out : Str) : Bool := validD (decorate (lex inp)) (decorate (lex out))
+
+/-- protocompile `newLexer` (parser/lexer.go, `utf8Bom`): a UTF-8 byte order mark at the very
+    beginning of a file is consumed before the first token is read; it is in no token, no comment
+    and not in the AST the formatter prints from, so the output never has one.  (Anywhere else in
+    a file U+FEFF is an invalid character: such a text does not parse and is never formatted.) -/
+def bomChar : Char := Char.ofNat 0xFEFF
+
+def stripBOM : Str → Str
+  | [] => []
+  | c :: cs => if c = bomChar then cs else c :: cs
+
+/-- the translation validator on FILE CONTENTS: `validFormat` behind the byte-order-mark rule of
+    the lexer.  This is what the driver runs (degenerate-file family: a file that is a byte order
+    mark plus comments formats to just the comments). -/
+def validFormatFile (inp out : Str) : Bool := validFormat (stripBOM inp) out
 
 /-! ## (v) The normal form `isFormatted` -/
 
